@@ -384,6 +384,16 @@ func (c *Ctx) runItem(it Item) *ItemResult {
 	e.funcs = map[string]int{}
 	crcLog = nil
 	t0 := time.Now()
+	budget := 150 * time.Second
+	if c.thorough() {
+		budget = 900 * time.Second
+	}
+	if v := os.Getenv("VF_ITEM_BUDGET_S"); v != "" {
+		if n, err := strconv.Atoi(v); err == nil {
+			budget = time.Duration(n) * time.Second
+		}
+	}
+	e.deadline = t0.Add(budget)
 	func() {
 		defer func() {
 			if r := recover(); r != nil {
@@ -425,6 +435,14 @@ func resetTerms() {
 	// constants compare by value.
 	hc = map[termKey]*Term{}
 	varsMemo = map[int][]int{}
+	boundsMemo = map[*Term]boundsEntry{}
+	windowMemo = map[*Term]struct {
+		arr  *Term
+		base int64
+		n    int
+		ok   bool
+	}{}
+	ubMemo = map[*Term]boundsEntry{}
 	hc[termKey{op: "true"}] = True
 	hc[termKey{op: "false"}] = False
 	varBounds = map[*Term][2]int64{}
@@ -433,6 +451,13 @@ func resetTerms() {
 func parentMain(d *Driver, tier string, seed int64, nworkers int, only string) int {
 	t0 := time.Now()
 	exe, _ := os.Executable()
+	// translator validation runs concurrently with the workers
+	tvDone := make(chan error, 1)
+	go func() {
+		n, err := runTV(d, seed)
+		tvCount = n
+		tvDone <- err
+	}()
 	type wres struct {
 		items []*ItemResult
 		fatal string
@@ -503,7 +528,14 @@ func parentMain(d *Driver, tier string, seed int64, nworkers int, only string) i
 		fmt.Println("CHECK BROKEN:", broken)
 		return 2
 	}
-	return finish(d, tier, seed, all, time.Since(t0), nworkers)
+	if err := <-tvDone; err != nil {
+		// the engine's model of the code disagrees with the compiled code on a concrete vector
+		fmt.Println("CHECK BROKEN:", err)
+		return 2
+	}
+	rc := finish(d, tier, seed, all, time.Since(t0), nworkers)
+	cleanupRunner()
+	return rc
 }
 
 func finish(d *Driver, tier string, seed int64, all []*ItemResult, wall time.Duration, nworkers int) int {
